@@ -74,6 +74,14 @@ func elemOf(v ssa.Value) (slice, index ssa.Value, ok bool) {
 				if cv := cellValue(y); cv != nil {
 					return elemOf(cv)
 				}
+			case *ssa.FreeVar: // a variable of the enclosing function read inside a function literal
+				if b := (&apWalker{}).freeVarBinding(y); b != nil {
+					if al, ok := b.(*ssa.Alloc); ok {
+						if cv := cellValue(al); cv != nil {
+							return elemOf(cv)
+						}
+					}
+				}
 			}
 		}
 	case *ssa.Alloc:
